@@ -29,6 +29,8 @@ pub struct NodeDump {
     pub min_idx: usize,
     /// Cost of the best path from BOS up to and including this node.
     pub min_cost: i32,
+    /// Word cost of the entry the node names (0 for BOS/EOS).
+    pub word_cost: i16,
 }
 
 /// Plain copy of the lattice of a worker after `tokenize`.
@@ -44,7 +46,15 @@ pub struct LatticeDump {
 
 /// Dumps the lattice currently held by the worker.
 pub fn dump_lattice(worker: &Worker) -> LatticeDump {
-    worker.lattice.verif_dump()
+    let mut dump = worker.lattice.verif_dump();
+    let dict = worker.tokenizer.dictionary();
+    for node in dump.ends.iter_mut().flatten() {
+        if node.word_id != u32::MAX {
+            let idx = crate::dictionary::WordIdx::new(node.lex_type, node.word_id);
+            node.word_cost = dict.word_param(idx).word_cost;
+        }
+    }
+    dump
 }
 
 /// Returns `(num_right, num_left)` of the connector.
